@@ -141,4 +141,47 @@ theorem plan_is_model (a : Alias) (h : a.dotOK = true) (st : ImpSt) :
     simp only [importPlan, hc, olImport, hc', modelCall, if_false, importModule, h2]
     all_goals (try simp)
 
+theorem lower_from_names (n : Nsp) (tmp : String) : ∀ (as : List Alias) (es : List Expr),
+    lowerImportFromNames n tmp as = .ok es →
+    es.length = as.length ∧ (∀ a ∈ as, a.name ≠ "*") ∧
+    ∀ p ∈ as.zip es, n.getAssign (p.1.asname.getD p.1.name) (.attribute (.name tmp) p.1.name) = .ok p.2
+  | [], es, h => by
+      simp only [lowerImportFromNames] at h; cases h; simp
+  | a :: as, es, h => by
+      simp only [lowerImportFromNames] at h
+      split at h
+      · cases h
+      · rename_i hs
+        obtain ⟨e, he, h⟩ := bind_ok h
+        obtain ⟨rest, hr, h⟩ := bind_ok h
+        cases pure_ok h
+        obtain ⟨hl, hn, hz⟩ := lower_from_names n tmp as rest hr
+        refine ⟨by simp [hl], ?_, ?_⟩
+        · intro b hb
+          simp only [List.mem_cons] at hb
+          rcases hb with rfl | hb
+          · simpa using hs
+          · exact hn b hb
+        · intro p hp
+          simp only [List.zip_cons_cons, List.mem_cons] at hp
+          rcases hp with rfl | hp
+          · exact he
+          · exact hz p hp
+
+/-- `from m import a [as x], b, …` lowers to one `__import__(m, globals(), locals(), [all names], level)` bound to a
+    fresh helper, followed by one binding per name, in source order, of `asname or name` to `helper.name`;
+    `from m import *` is refused -/
+theorem lower_from_plan (n : Nsp) (m : Option String) (names : List Alias) (level : Nat) (st st' : St) (es : List Expr)
+    (h : lowerImportFrom n m names level st = .ok (es, st')) :
+    ∃ rest, es = .namedExpr (st.fresh "mod").1 (.call (.name "__import__")
+        [Expr.str (m.getD ""), .call (.name "globals") [] [], .call (.name "locals") [] [],
+         .list (names.map fun a => Expr.str a.name), .const (.int level)] []) :: rest ∧
+      st' = (st.fresh "mod").2 ∧ rest.length = names.length ∧ (∀ a ∈ names, a.name ≠ "*") ∧
+      ∀ p ∈ names.zip rest, n.getAssign (p.1.asname.getD p.1.name) (.attribute (.name (st.fresh "mod").1) p.1.name) = .ok p.2 := by
+  simp only [lowerImportFrom] at h
+  obtain ⟨rest, hr, h⟩ := bind_ok h
+  cases pure_ok h
+  obtain ⟨hl, hn, hz⟩ := lower_from_names n _ names rest hr
+  exact ⟨rest, rfl, rfl, hl, hn, hz⟩
+
 end OlVerif.C14
